@@ -14,6 +14,7 @@ pub proof fn lemma_dot_comb(r: Seq<real>, t: Seq<real>, f: real, x: Seq<real>, n
     ensures dot(n, x) == dot(r, x) - f * dot(t, x)
     decreases r.len()
 {
+    reveal(rmul_s); reveal(rdiv_s);
     if r.len() == 0 {
     } else {
         lemma_dot_comb(r.drop_last(), t.drop_last(), f, x.drop_last(), n.drop_last());
@@ -29,6 +30,7 @@ pub proof fn lemma_dot_scale(t: Seq<real>, p: real, x: Seq<real>, n: Seq<real>)
     ensures dot(n, x) == dot(t, x) / p
     decreases t.len()
 {
+    reveal(rmul_s); reveal(rdiv_s);
     if t.len() == 0 {
         assert(0real / p == 0real) by (nonlinear_arith) requires p != 0real;
     } else {
